@@ -30,15 +30,15 @@ type c18Attr struct {
 	I int   `json:"i,omitempty"`
 }
 type c18Case struct {
-	Op    int      `json:"op"`
-	Ops   [][2]int `json:"ops,omitempty"`
-	G     [][]int  `json:"g,omitempty"`
-	Roots []int    `json:"roots,omitempty"`
-	Flags int      `json:"flags,omitempty"`
-	G2    [][]int  `json:"g2,omitempty"`
-	W     [][]F64  `json:"w,omitempty"`
-	Nodes []int    `json:"nodes,omitempty"`
-	Edges [][2]int `json:"edges,omitempty"`
+	Op     int           `json:"op"`
+	Ops    [][2]int      `json:"ops,omitempty"`
+	G      [][]int       `json:"g,omitempty"`
+	Roots  []int         `json:"roots,omitempty"`
+	Flags  int           `json:"flags,omitempty"`
+	G2     [][]int       `json:"g2,omitempty"`
+	W      [][]F64       `json:"w,omitempty"`
+	Nodes  []int         `json:"nodes,omitempty"`
+	Edges  [][2]int      `json:"edges,omitempty"`
 	S      []int         `json:"s,omitempty"`
 	Name   []int         `json:"name,omitempty"`
 	HasL   bool          `json:"hasl,omitempty"`
@@ -568,6 +568,12 @@ func c18GenTrav(tier string, rng *rand.Rand, emit func(interface{})) {
 				roots := []int{0, n - 1}
 				if relabel == 2 {
 					roots = c18Roots(rng, n, 2)
+				}
+				if n > 20000 { // one root: the start of the structure under the relabelling
+					roots = roots[:1]
+					if relabel == 1 {
+						roots = []int{n - 1}
+					}
 				}
 				emit(c18Case{Op: 2, G: g, Roots: roots})
 			}
